@@ -37,16 +37,24 @@ RejKey == Line.ty \o "/" \o Line.entry \o "/" \o Line.arg
 
 \* judgement of the current line: violated clauses and the class of the case (for coverage
 \* statistics); never looks at used / cfg / ncalls
+\* a step the child process did not survive (or that never returned): the obligation depends on
+\* the kind of step only
+CrashClause(ev) ==
+  CASE ev = "Size" -> "size_ok" [] ev = "Encode" -> "enc_ok" [] ev = "Decode" -> "dec_nocrash"
+    [] ev = "Deep" -> "deep_nocrash" [] ev = "Reject" -> "rej_nofault" [] ev = "Legacy" -> "legacy_ok"
+    [] ev = "Allocs" -> "alloc_ok" [] ev = "Par" -> (IF Line.obs.out = "race" THEN "par_norace" ELSE "par_nocrash")
+    [] OTHER -> "mem_crash"       \* walking / re-reading a kept decoded object killed the process
+
 Judge ==
-  CASE Line.ev = "Size" ->
-         (IF Line.obs.out = "crash" THEN [fail |-> {"size_ok"}, cls |-> "Size>crash"]
-          ELSE JSize(Line.ty, ValOf, Line.obs))
+  IF Line.obs.out \in {"crash", "timeout", "race"}
+  THEN [fail |-> {CrashClause(Line.ev)}, cls |-> Line.ev \o "/?>" \o Line.obs.out]
+  ELSE
+  CASE Line.ev = "Size" -> JSize(Line.ty, ValOf, Line.obs)
     [] Line.ev = "Encode" ->
-         (IF Line.obs.out \in {"crash", "panic"} THEN [fail |-> {"enc_ok"}, cls |-> "Encode/?>" \o Line.obs.out]
+         (IF Line.obs.out = "panic" THEN [fail |-> {"enc_ok"}, cls |-> "Encode/?>panic"]
           ELSE JEncode(Line.ty, ValOf, Line.buflen, Line.obs))
     [] Line.ev = "Decode" ->
-         (IF Line.obs.out \in {"crash", "timeout"} THEN [fail |-> {"dec_nocrash"}, cls |-> "Decode/?>" \o Line.obs.out]
-          ELSE LET j == JDecode(Line.ty, Line.in, Line.dest, Line.obs) IN
+         (LET j == JDecode(Line.ty, Line.in, Line.dest, Line.obs) IN
                [j EXCEPT !.fail = @ \cup (IF Line.orig >= 0
                                            THEN FailRoundTrip(Line.ty, cur.vals[Line.orig + 1], Line.in, Line.obs)
                                            ELSE {})])
